@@ -358,7 +358,12 @@ namespace Dune {
           // first get an approximation
           I lower = I(val); // now |val-lower| < 1
           // make sure we're really lower in case the cast truncated to an unexpected direction
-          if(T(lower) > val) lower--; // now val-lower < 1
+          if(T(lower) > val) {
+            // I(val) itself is the integer above val: test it before the decrement (afterwards lower+1
+            // is no longer that integer if lower-- wrapped around at the smallest value of a narrow I)
+            if(eq<T, cstyle>(T(lower), val, epsilon)) return lower;
+            lower--; // now val-lower < 1
+          }
           // val is an integer: nothing to truncate.  (Without this test an integer val was moved to
           // val+1 whenever val+1 compares equal to val: epsilon*|val| >= 1 for the relative styles,
           // or T(lower+1) == val because lower+1 is not representable in T)
